@@ -411,9 +411,16 @@ CheckOp(k, now) ==
                   ELSE U(now + Min(Min(tm_packet, tm_flush), k.interval))
 
 (* ------------------------------ settings -------------------------------- *)
+(* refused: at or below the header size; an MSS above the pooled segment buffers (MtuLimit); an MSS below the size of a *)
+(* segment that is already queued or in flight (it could not be carried any more) -- fix 'SetMtu accepts MTUs it cannot  *)
+(* honour'                                                                                                              *)
+MtuLimit == 1500
 SetMtuOp(k, mtu) ==
-  IF mtu <= OVERHEAD THEN [k |-> k, ret |-> -1]
-  ELSE [k |-> [k EXCEPT !.mtu = mtu, !.mss = mtu - OVERHEAD], ret |-> 0]
+  IF mtu <= OVERHEAD \/ mtu - OVERHEAD > MtuLimit
+     \/ (\E i \in 1..Len(k.snd_queue) : k.snd_queue[i].len > mtu - OVERHEAD)
+     \/ (\E i \in 1..Len(k.snd_buf) : k.snd_buf[i].len > mtu - OVERHEAD)
+    THEN [k |-> k, ret |-> -1]
+    ELSE [k |-> [k EXCEPT !.mtu = mtu, !.mss = mtu - OVERHEAD], ret |-> 0]
 
 WndSizeOp(k, snd, rcv) ==
   [k EXCEPT !.snd_wnd = IF snd > 0 THEN snd ELSE @, !.rcv_wnd = IF rcv > 0 THEN rcv ELSE @]
